@@ -34,7 +34,8 @@ PROPS = {
     "C04": {
         "level": "method.run == any over callers of (caller.run & any(enable of its calls)) with matching keys; enables accumulated by AND along "
         "the call chain; enable signal driven in av_comb; non-constant enable_call lowered to a call under If; nested body ready-dependency; "
-        "sole writers of run.",
+        "sole writers of run; a transaction retired by the simultaneity step stays in the design as a method (its nested bodies stay blocked); a "
+        "simultaneous group is built only with a caller of every member's enclosing simultaneous body.",
         "undecided": "composition over designs.",
         "technique": T_CORE,
     },
@@ -54,15 +55,18 @@ PROPS = {
     },
     "C07": {
         "level": "Eager run is propositionally *equivalent* to ready & runnable & ~any(run of earlier graph neighbours): no other blocker; "
-        "conflict edges only under the conflict flag (schedule_before records conflict=False); exemptions present (nonexclusive ancestor, "
-        "exclusive call paths, alternative-recording enter types).",
+        "conflict edges only under the conflict flag (schedule_before records conflict=False); exemptions present (some nonexclusive method common to both ancestor chains - "
+        "existential, not one element of the common prefix -, exclusive call paths, alternative-recording enter types); the argument records "
+        "fed to validate_arguments are required to be independent of run (reports known finding F30).",
         "undecided": "that group merging in _simultaneous adds no spurious blocking.",
         "technique": T_CORE,
     },
     "C08": {
         "level": "Orientation parity of the chain LEFT/RIGHT edge -> graph reversals -> topological order -> ascending numbering -> ascending "
         "sort in the scheduler -> blocking on earlier positions is computed and required to put the prioritised side first; priorities "
-        "reach the edges unchanged; schedule_before = LEFT without conflict.",
+        "reach the edges unchanged; schedule_before = LEFT without conflict; relations are copied to bodies from "
+        "transactions, defined methods and provide()d methods; every scheduler function reads the order it is handed (reports known finding F24 for "
+        "the round-robin scheduler).",
         "undecided": "behaviour over designs.",
         "technique": T_CORE,
     },
@@ -81,9 +85,10 @@ PROPS = {
         "technique": T_CORE,
     },
     "C11": {
-        "level": "Each rejection is reached under a guard equivalent to its stated predicate (double call: exclusive and not path-exclusive with an "
-        "earlier sighting; recursion: method among ancestors; single_caller; deadlock: ready-dependency in conflict; cyclic priorities via "
-        "topological sort) and validation runs on every method and transaction.",
+        "level": "Each rejection is reached under a guard equivalent to its stated predicate (double call: not path-exclusive with an earlier sighting and no "
+        "nonexclusive method common to both ancestor chains; recursion: method among ancestors; single_caller; deadlock: ready-dependency in conflict; cyclic priorities via "
+        "topological sort) and validation runs on every method and transaction; acceptance: callers of a nonexclusive body are not made "
+        "independent alternatives.",
         "undecided": "composition over designs; networkx raising on cycles is trusted.",
         "technique": T_CORE,
     },
@@ -92,7 +97,8 @@ PROPS = {
         "condition; priority chains the immediately preceding branch; nonblocking adds a default; alternatives declared; relation API "
         "(simultaneous both ways, alternatives = simultaneous + independence); merged transaction calls every group member. Steps of the "
         "group computation in _simultaneous: pairs over transactions_for(body) x transactions_for(partner), independent pairs rejected, "
-        "independence table filled symmetrically, worklist closure that skips recorded groups and groups with two independent members, "
+        "independence table filled symmetrically (callers of a nonexclusive body exempt), a group built only with a caller of every member's "
+        "enclosing simultaneous body, worklist closure that skips recorded groups and groups with two independent members, "
         "maximal groups only, members retired from the plain transaction list, only non-conflict orderings towards partners removed; "
         "conditional-call infection marks the called methods of infected transactions unless already marked.",
         "undecided": "that the steps of the group computation compose to the intended fixpoint; branch admissibility over inputs.",
